@@ -65,10 +65,16 @@
 //	            (int, int64: DecFloat.neg64 = wrap-around; float64: DecFloat.b64_neg = sign bit, exact for non-NaN),
 //	            l[i] on a slice with an unsigned index (None = PPanic), uint64(len(l)) = the length (a Go length is a
 //	            non-negative int), MessageID(uint64) = mod 2^32.
+//	            For Parser.string: a labelled `for {}` with `break Label` / `continue` (leave / repeat the innermost loop;
+//	            a plain break inside a switch is rejected), `switch v := p.m(); v { case <integer constants>: }` (if chain
+//	            in source order, default last), `fallthrough` as the last statement of a clause (continues with the next
+//	            clause's body), a switch that ends its block hands the continuation to its arms (no join), `_ = p.m()`,
+//	            `var b strings.Builder` = the bytes written, `if _, err := b.WriteRune(r) | b.WriteString(s); err != nil
+//	            {..failf}` = b ++ utf8_encode r | b ++ s (the error of a strings.Builder write is always nil), b.String().
 //	Parse       see translateParse: exact shape required; emitted as Parser_Parse_dispatch / Parser_Parse_loop.
 //	primitives  a call p.m(...) inside any translated method is printed as the hand model's operation (table
 //	            `prims`); for the translated helpers ParserEquiv.v proves Parser_m = that operation. NOT translated
-//	            (hand model only): nextToken peekToken nextRune peekRune useWhitespace string int anyOf failf.
+//	            (hand model only): nextToken peekToken nextRune peekRune useWhitespace int anyOf failf.
 package main
 
 import (
@@ -112,7 +118,7 @@ var prims = map[string]string{
 	"intInRange": "P_int_in_range", "optionalObjectType": "P_optional_object_type", "messageID": "P_message_id",
 	"signalValueType": "P_signal_value_type", "environmentVariableType": "P_environment_variable_type",
 	"attributeValueType": "P_attribute_value_type", "accessType": "P_access_type", "enumValue": "P_enum_value",
-	"useWhitespace": "P_use_whitespace", "discardLine": "P_discard_line", "anyOf": "P_any_of",
+	"useWhitespace": "P_use_whitespace", "nextRune": "P_next_rune", "peekRune": "P_peek_rune", "discardLine": "P_discard_line", "anyOf": "P_any_of",
 }
 
 var enumCtors = map[string][]string{
@@ -122,11 +128,11 @@ var enumCtors = map[string][]string{
 }
 
 // Parser methods translated (compositions of other helpers); NOT translated = hand model only: nextToken peekToken
-// nextRune peekRune useWhitespace (scanner access), string (labelled loop over runes, strings.Builder), int (F12
+// nextRune peekRune useWhitespace (scanner access), int (F12
 // conversion arithmetic), anyOf (variadic range), failf
 var helperMethods = []string{"keyword", "peekKeyword", "token", "optionalToken", "identifier", "stringIdentifier", "uint",
 	"optionalUint", "float", "intInRange", "enumValue", "optionalObjectType", "messageID", "signalValueType",
-	"environmentVariableType", "attributeValueType", "accessType", "discardLine"}
+	"environmentVariableType", "attributeValueType", "accessType", "discardLine", "string"}
 
 var enumOf = map[string]string{"ObjectType": "object_type_of", "AttributeValueType": "attr_type_of", "AccessType": "access_type_of"}
 
@@ -163,6 +169,9 @@ func coqType(n ast.Node, t types.Type) string {
 		switch n.Obj().Pkg().Path() + "." + name {
 		case "text/scanner.Position":
 			return "position"
+		case "strings.Builder":
+			return "bytes" // the bytes written so far; WriteRune / WriteString append and never fail
+
 		case pkgPath + ".token":
 			return "token"
 		}
@@ -226,6 +235,9 @@ type mctx struct {
 	fn        string // Coq name of the function being translated
 	helper    bool   // a Parser helper method (no struct receiver; may return a value)
 	hasResult bool
+	contK     string            // continuation of `continue` inside a loop
+	label     string            // label of the innermost translated loop
+	inSwitch  int               // depth of switch statements inside the innermost loop
 	parser    string            // name of the *Parser parameter
 	vars      map[string]string // variables in scope -> Coq type
 	order     []string          // declaration order
@@ -485,6 +497,11 @@ func (c *mctx) expr(e ast.Expr, pre *[]string) string {
 			v := c.expr(x.Args[1], pre)
 			return "(" + l + " ++ [" + v + "])"
 		}
+		if se, ok := x.Fun.(*ast.SelectorExpr); ok && se.Sel.Name == "String" && len(x.Args) == 0 {
+			if id, ok := se.X.(*ast.Ident); ok && namedName(info.TypeOf(id)) == "Builder" && c.vars[id.Name] == "bytes" {
+				return id.Name
+			}
+		}
 		if call, ok := c.parserCall(x, pre); ok {
 			v := c.fresh("t")
 			*pre = append(*pre, fmt.Sprintf("plet %s <- %s;", v, call))
@@ -590,7 +607,7 @@ func (c *mctx) assigned(list []ast.Stmt) []string {
 					declared[id.Name] = true
 				}
 			case *ast.CallExpr:
-				if se, ok := x.Fun.(*ast.SelectorExpr); ok && se.Sel.Name == "parseFrom" {
+				if se, ok := x.Fun.(*ast.SelectorExpr); ok && (se.Sel.Name == "parseFrom" || se.Sel.Name == "WriteRune" || se.Sel.Name == "WriteString") {
 					mark(se.X)
 				}
 			}
@@ -670,7 +687,7 @@ func (c *mctx) terminates(list []ast.Stmt) bool {
 	}
 	switch x := list[len(list)-1].(type) {
 	case *ast.BranchStmt:
-		return x.Tok == token.BREAK && x.Label == nil
+		return x.Tok == token.BREAK || x.Tok == token.CONTINUE
 	case *ast.ReturnStmt:
 		return true
 	case *ast.ExprStmt:
@@ -721,11 +738,21 @@ func (c *mctx) stmts(list []ast.Stmt, k string) string {
 	switch x := s.(type) {
 	case *ast.EmptyStmt:
 		return c.stmts(rest, k)
+	case *ast.LabeledStmt:
+		f, ok := x.Stmt.(*ast.ForStmt)
+		if !ok {
+			failAt(s, "label on a statement that is not a for loop")
+		}
+		return c.forStmtL(f, x.Label.Name, rest, k)
 	case *ast.BlockStmt:
 		return c.stmts(append(append([]ast.Stmt{}, x.List...), rest...), k)
 	case *ast.BranchStmt:
-		if x.Tok == token.BREAK && x.Label == nil && c.breakK != "" && len(rest) == 0 {
-			return c.breakK
+		if x.Tok == token.BREAK && c.breakK != "" && len(rest) == 0 &&
+			((x.Label == nil && c.inSwitch == 0) || (x.Label != nil && x.Label.Name == c.label)) {
+			return c.breakK // leaves the innermost loop
+		}
+		if x.Tok == token.CONTINUE && c.contK != "" && len(rest) == 0 && (x.Label == nil || x.Label.Name == c.label) {
+			return c.contK
 		}
 		failAt(s, "%s outside the translated subset", x.Tok)
 	case *ast.ReturnStmt:
@@ -934,6 +961,15 @@ func (c *mctx) assign(x *ast.AssignStmt, rest []ast.Stmt, k string) string {
 	}
 	var pre []string
 	rhs := x.Rhs[0]
+	if id, ok := x.Lhs[0].(*ast.Ident); ok && id.Name == "_" && x.Tok == token.ASSIGN {
+		// _ = p.m(...): the call for its effect
+		if call, ok := rhs.(*ast.CallExpr); ok {
+			if pc, ok := c.parserCall(call, &pre); ok {
+				return wrap(pre, fmt.Sprintf("%s ;; %s", pc, c.stmts(rest, k)))
+			}
+		}
+		failAt(x, "`_ =` of anything but a parser call")
+	}
 	switch l := x.Lhs[0].(type) {
 	case *ast.Ident:
 		// x := p.m(...) binds directly
@@ -1045,6 +1081,26 @@ func (c *mctx) ifStmt(x *ast.IfStmt, rest []ast.Stmt, k string) string {
 	}
 	// if v, ok := y.(*T); ok && c { ... }
 	if x.Init != nil {
+		if as, ok := x.Init.(*ast.AssignStmt); ok && as.Tok == token.DEFINE && len(as.Lhs) == 2 && len(as.Rhs) == 1 {
+			// if _, err := b.WriteRune(r) | b.WriteString(s); err != nil { ...failf }   (strings.Builder: the error is always nil)
+			if call, ok := as.Rhs[0].(*ast.CallExpr); ok && len(call.Args) == 1 {
+				if se, ok := call.Fun.(*ast.SelectorExpr); ok && (se.Sel.Name == "WriteRune" || se.Sel.Name == "WriteString") {
+					id, okid := se.X.(*ast.Ident)
+					l0, ok0 := as.Lhs[0].(*ast.Ident)
+					er, ok1 := as.Lhs[1].(*ast.Ident)
+					if okid && ok0 && ok1 && l0.Name == "_" && namedName(info.TypeOf(id)) == "Builder" && c.vars[id.Name] == "bytes" &&
+						x.Else == nil && c.terminates(x.Body.List) && srcOf(x.Cond) == er.Name+"!=nil" {
+						var pre []string
+						a := c.expr(call.Args[0], &pre)
+						if se.Sel.Name == "WriteRune" {
+							a = "utf8_encode " + a
+						}
+						return wrap(pre, fmt.Sprintf("let %s := %s ++ %s in %s", id.Name, id.Name, a, c.stmts(rest, k)))
+					}
+					failAt(x, "strings.Builder write outside the idiom `if _, err := b.WriteX(e); err != nil { ...failf }`")
+				}
+			}
+		}
 		if as, ok := x.Init.(*ast.AssignStmt); ok && as.Tok == token.DEFINE && len(as.Lhs) == 1 && len(as.Rhs) == 1 {
 			// if err := v.Validate(); err != nil { ...failf }
 			if call, ok := as.Rhs[0].(*ast.CallExpr); ok {
@@ -1116,15 +1172,40 @@ func (c *mctx) ifStmt(x *ast.IfStmt, rest []ast.Stmt, k string) string {
 
 func (c *mctx) switchStmt(x *ast.SwitchStmt, rest []ast.Stmt, k string) string {
 	if x.Init != nil {
-		failAt(x, "switch with init statement")
+		// switch v := e; v { ... }: v is in scope for the switch only
+		as, ok := x.Init.(*ast.AssignStmt)
+		if !ok || as.Tok != token.DEFINE || len(as.Lhs) != 1 {
+			failAt(x, "switch with an init statement other than `v := e`")
+		}
+		restS := c.scoped(func() string { return c.stmts(rest, k) })
+		return c.scoped(func() string {
+			plain := *x
+			plain.Init = nil
+			return c.stmts([]ast.Stmt{as, &plain}, restS)
+		})
+	}
+	// fallthrough as the last statement of a clause: the body continues with the body of the next clause
+	bodies := map[*ast.CaseClause][]ast.Stmt{}
+	for i := len(x.Body.List) - 1; i >= 0; i-- {
+		cc := x.Body.List[i].(*ast.CaseClause)
+		b := cc.Body
+		if n := len(b); n > 0 {
+			if br, ok := b[n-1].(*ast.BranchStmt); ok && br.Tok == token.FALLTHROUGH {
+				if i+1 >= len(x.Body.List) {
+					failAt(br, "fallthrough in the last clause")
+				}
+				b = append(append([]ast.Stmt{}, b[:n-1]...), bodies[x.Body.List[i+1].(*ast.CaseClause)]...)
+			}
+		}
+		bodies[cc] = b
 	}
 	var clauses []*ast.CaseClause
 	var def *ast.CaseClause
 	var all []ast.Stmt
 	for _, s := range x.Body.List {
 		cc := s.(*ast.CaseClause)
-		for _, b := range cc.Body {
-			if br, ok := b.(*ast.BranchStmt); ok && br.Tok == token.FALLTHROUGH {
+		for i, b := range cc.Body {
+			if br, ok := b.(*ast.BranchStmt); ok && br.Tok == token.FALLTHROUGH && i != len(cc.Body)-1 {
 				failAt(b, "fallthrough")
 			}
 		}
@@ -1137,11 +1218,41 @@ func (c *mctx) switchStmt(x *ast.SwitchStmt, rest []ast.Stmt, k string) string {
 	}
 	vs := c.assigned(all)
 	kr := "ret " + tuple(vs)
+	direct := len(rest) == 0 // the switch ends its block: the arms continue with k themselves (they may break / continue / return)
+	if direct {
+		kr = k
+	}
+	finishSw := func(out string) string {
+		if direct {
+			return out
+		}
+		return c.join(vs, out, rest, k)
+	}
 	arm := func(cc *ast.CaseClause) string {
 		if cc == nil {
 			return kr
 		}
-		return c.scoped(func() string { return c.stmts(cc.Body, kr) })
+		c.inSwitch++
+		defer func() { c.inSwitch-- }()
+		return c.scoped(func() string { return c.stmts(bodies[cc], kr) })
+	}
+	if x.Tag != nil && coqType(x.Tag, info.TypeOf(x.Tag)) == "Z" {
+		// integer / rune tag with constant cases: if chain in source order, default last
+		var pre []string
+		tag := c.expr(x.Tag, &pre)
+		out := arm(def)
+		for i := len(clauses) - 1; i >= 0; i-- {
+			var tests []string
+			for _, e := range clauses[i].List {
+				v, ok := constString(e)
+				if !ok {
+					failAt(e, "case that is not a constant")
+				}
+				tests = append(tests, fmt.Sprintf("(%s =? %s)", tag, v))
+			}
+			out = fmt.Sprintf("if %s then %s else %s", strings.Join(tests, " || "), arm(clauses[i]), out)
+		}
+		return wrap(pre, finishSw(out))
 	}
 	if x.Tag == nil {
 		out := arm(def)
@@ -1152,7 +1263,7 @@ func (c *mctx) switchStmt(x *ast.SwitchStmt, rest []ast.Stmt, k string) string {
 			}
 			out = c.cond(cc.List[0], arm(cc), out)
 		}
-		return c.join(vs, out, rest, k)
+		return finishSw(out)
 	}
 	ctors, ok := enumCtors[namedName(info.TypeOf(x.Tag))]
 	if !ok {
@@ -1181,7 +1292,7 @@ func (c *mctx) switchStmt(x *ast.SwitchStmt, rest []ast.Stmt, k string) string {
 		out += " | _ => " + arm(def)
 	}
 	out += " end"
-	return wrap(pre, c.join(vs, out, rest, k))
+	return wrap(pre, finishSw(out))
 }
 
 func (c *mctx) params(names []string) (decl, use string) {
@@ -1214,6 +1325,10 @@ func union(a, b []string, order []string) []string {
 }
 
 func (c *mctx) forStmt(x *ast.ForStmt, rest []ast.Stmt, k string) string {
+	return c.forStmtL(x, "", rest, k)
+}
+
+func (c *mctx) forStmtL(x *ast.ForStmt, label string, rest []ast.Stmt, k string) string {
 	if x.Init != nil || x.Post != nil {
 		failAt(x, "for with init / post statement")
 	}
@@ -1238,9 +1353,11 @@ func (c *mctx) forStmt(x *ast.ForStmt, rest []ast.Stmt, k string) string {
 	if usesDefs {
 		decl, use = " (p_defs : list def)"+decl, " p_defs"+use
 	}
-	saveB := c.breakK
+	saveB, saveC, saveL, saveS := c.breakK, c.contK, c.label, c.inSwitch
+	defer func() { c.contK, c.label, c.inSwitch = saveC, saveL, saveS }()
 	c.breakK = "ret " + tuple(vs)
 	again := name + " f'" + use
+	c.contK, c.label, c.inSwitch = again, label, 0
 	var body string
 	if x.Cond != nil {
 		b := c.scoped(func() string { return c.stmts(x.Body.List, again) })
@@ -1364,6 +1481,8 @@ const prelude = `Section Translated.
   Local Notation P_access_type := (p_access_type is_letter_hi is_digit_hi F).
   Local Notation P_enum_value := (enum_value is_letter_hi is_digit_hi F).
   Local Notation P_use_whitespace := use_whitespace.
+  Local Notation P_next_rune := next_rune.
+  Local Notation P_peek_rune := peek_rune.
   Local Notation P_discard_line := (discard_line is_letter_hi is_digit_hi F).
 
 `
